@@ -30,6 +30,7 @@ CONSTANTS
   Settable,  \* inputs set_value is applied to (a subset of Inputs)
   Recalc,    \* BOOLEAN: the recalculate() action is part of the explored behaviours
   Lists,     \* address lists evaluate() may be called with (sequences of nodes)
+  SetLists,  \* sequences of <<input, value>> for set_value(range / list, values)
   Src        \* "NoData": workbook without stored results
              \* "Stored": xlsx with stored formula results
              \* "Loaded": model read back by from_file
@@ -221,17 +222,39 @@ EvaluateList(seq) ==
       /\ act' = [op |-> "evaluate_list", ns |-> seq]
       /\ UNCHANGED <<inp, changed>>
 
+(* the effect of one set_value(cell, v) on <<inp, cache, changed>> *)
+SetStep(st, a, v) ==
+  IF st.cache[a] = v THEN st
+  ELSE LET c1 == [st.cache EXCEPT ![a] = v]
+           R  == ResetFrom({a}, {a}, c1)
+       IN  [inp |-> [st.inp EXCEPT ![a] = v],
+            cache |-> [x \in Nodes |-> IF x \in R \ {a} THEN NoneV ELSE c1[x]],
+            changed |-> TRUE]
+
 SetValue(a, v) ==
   /\ a \in built           \* the code asserts the address is in cell_map
-  /\ IF cache[a] = v
-     THEN UNCHANGED <<inp, cache, changed>>
-     ELSE LET c1 == [cache EXCEPT ![a] = v]
-              R  == ResetFrom({a}, {a}, c1)
-          IN  /\ cache' = [x \in Nodes |-> IF x \in R \ {a} THEN NoneV ELSE c1[x]]
-              /\ inp' = [inp EXCEPT ![a] = v]
-              /\ changed' = TRUE
+  /\ LET st == SetStep([inp |-> inp, cache |-> cache, changed |-> changed], a, v)
+     IN  /\ inp' = st.inp
+         /\ cache' = st.cache
+         /\ changed' = st.changed
   /\ ret' = NoneV
   /\ act' = [op |-> "set_value", n |-> a, v |-> v]
+  /\ UNCHANGED <<built, edges>>
+
+(* set_value(range or list of addresses, values): the values are flattened  *)
+(* and the cells are set one after the other                                *)
+RECURSIVE SetSeq(_, _)
+SetSeq(st, pairs) == IF pairs = <<>> THEN st
+                     ELSE SetSeq(SetStep(st, Head(pairs)[1], Head(pairs)[2]), Tail(pairs))
+
+SetMany(pairs) ==
+  /\ \A i \in 1..Len(pairs) : pairs[i][1] \in built
+  /\ LET st == SetSeq([inp |-> inp, cache |-> cache, changed |-> changed], pairs)
+     IN  /\ inp' = st.inp
+         /\ cache' = st.cache
+         /\ changed' = st.changed
+  /\ ret' = NoneV
+  /\ act' = [op |-> "set_many", pairs |-> pairs]
   /\ UNCHANGED <<built, edges>>
 
 (* recalculate(): every range and formula cell of the cell map is cleared, *)
@@ -247,6 +270,7 @@ Recalculate ==
 Next == \/ \E n \in Nodes : Evaluate(n)
         \/ Recalculate
         \/ \E seq \in Lists : EvaluateList(seq)
+        \/ \E pairs \in SetLists : SetMany(pairs)
         \/ \E a \in Settable, v \in Pool : SetValue(a, v)
 
 Spec == Init /\ [][Next]_vars
